@@ -218,6 +218,7 @@ pub enum OpClass {
     MkdirAll,
     RemoveAll,
     Single,
+    SingleValid,
     Reopen,
 }
 
@@ -230,6 +231,7 @@ impl OpClass {
             "mkdir_all" => OpClass::MkdirAll,
             "remove_all" => OpClass::RemoveAll,
             "single" => OpClass::Single,
+            "single_valid" => OpClass::SingleValid,
             "reopen" => OpClass::Reopen,
             _ => return None,
         })
@@ -246,7 +248,7 @@ impl OpClass {
             OpClass::Mutating => !lookup && !matches!(op, Op::Reopen { .. }),
             OpClass::MkdirAll => matches!(op, Op::MkdirAll { .. }),
             OpClass::RemoveAll => matches!(op, Op::RemoveAll { .. }),
-            OpClass::Single => matches!(
+            OpClass::Single | OpClass::SingleValid => matches!(
                 op,
                 Op::Mkdir { .. }
                     | Op::Mknod { .. }
@@ -262,7 +264,119 @@ impl OpClass {
     }
 }
 
+/// a way of spelling the path of an existing entry: plain, through a detour, with a leading slash
+fn spell(rng: &mut Rng, spec: &TreeSpec, path: &[u8]) -> Vec<u8> {
+    let mut p = path.to_vec();
+    match rng.below(8) {
+        0 => {
+            let mut v = b"/".to_vec();
+            v.extend_from_slice(&p);
+            p = v;
+        }
+        1 => {
+            // down into the parent and back: parent/../parent/name
+            let parent = parent_of(path).to_vec();
+            if !parent.is_empty() {
+                let name = &path[parent.len() + 1..];
+                let mut v = parent.clone();
+                v.extend_from_slice(b"/../");
+                let last = parent.rsplit(|c| *c == b'/').next().unwrap_or(b"").to_vec();
+                v.extend_from_slice(&last);
+                v.push(b'/');
+                v.extend_from_slice(name);
+                // only correct when the parent is at depth 1 below its own parent: use the full form otherwise
+                if crate::tree::depth(&parent) == 1 {
+                    p = v;
+                }
+            }
+        }
+        2 => {
+            // through a symlink that names the parent directory
+            let parent = parent_of(path).to_vec();
+            if let Some(l) = spec.entries.iter().find(|e| matches!(&e.kind, Kind::Link(t) if *t == parent && !parent.is_empty())) {
+                if !l.path.contains(&b'/') {
+                    let name = &path[parent.len() + 1..];
+                    p = join(&l.path, name);
+                }
+            }
+        }
+        3 => {
+            let mut v = b"./".to_vec();
+            v.extend_from_slice(&p);
+            p = v;
+        }
+        _ => {}
+    }
+    p
+}
+
+/// single-entry operations that are mostly applicable to the tree (C14)
+pub fn gen_single_valid(rng: &mut Rng, spec: &TreeSpec) -> Op {
+    if spec.entries.is_empty() || rng.chance(1, 4) {
+        return gen_op_in(rng, spec, OpClass::Single);
+    }
+    let dirs = spec.dirs();
+    let fresh = |rng: &mut Rng| -> Vec<u8> {
+        let d = rng.pick(&dirs).clone();
+        let n: &[u8] = *rng.pick(&[&b"new"[..], b"new2", b"zz", b"x y"]);
+        join(&d, n)
+    };
+    let has_children = |p: &[u8]| {
+        let mut pre = p.to_vec();
+        pre.push(b'/');
+        spec.entries.iter().any(|e| e.path.starts_with(&pre))
+    };
+    let e = rng.pick(&spec.entries).clone();
+    match rng.below(10) {
+        0 | 1 => {
+            let nondirs: Vec<&crate::tree::Entry> = spec.entries.iter().filter(|e| e.kind != Kind::Dir).collect();
+            match nondirs.is_empty() {
+                true => Op::RemoveFile { path: spell(rng, spec, &e.path) },
+                false => {
+                    let t = (*rng.pick(&nondirs)).path.clone();
+                    Op::RemoveFile { path: spell(rng, spec, &t) }
+                }
+            }
+        }
+        2 | 3 => {
+            let empties: Vec<&crate::tree::Entry> =
+                spec.entries.iter().filter(|e| e.kind == Kind::Dir && !has_children(&e.path)).collect();
+            match empties.is_empty() {
+                true => Op::RemoveDir { path: spell(rng, spec, &e.path) },
+                false => {
+                    let t = (*rng.pick(&empties)).path.clone();
+                    Op::RemoveDir { path: spell(rng, spec, &t) }
+                }
+            }
+        }
+        4 | 5 | 6 => {
+            // rename an existing entry to a fresh name, onto an existing entry, or exchange
+            let dst_existing = rng.pick(&spec.entries).path.clone();
+            let (dst, flags) = match rng.below(6) {
+                0 => (dst_existing, 0),
+                1 => (dst_existing, libc::RENAME_EXCHANGE),
+                2 => (fresh(rng), libc::RENAME_NOREPLACE),
+                3 => (dst_existing, libc::RENAME_NOREPLACE),
+                _ => (fresh(rng), 0),
+            };
+            Op::Rename { src: spell(rng, spec, &e.path), dst: spell(rng, spec, &dst), flags }
+        }
+        7 => Op::Hardlink { path: fresh(rng), target: spell(rng, spec, &e.path) },
+        8 => Op::Symlink { path: fresh(rng), target: e.path.clone() },
+        _ => Op::CreateFile {
+            path: if rng.chance(1, 2) { spell(rng, spec, &e.path) } else { fresh(rng) },
+            flags: *rng.pick(&[libc::O_RDONLY, libc::O_WRONLY, libc::O_RDWR | libc::O_TRUNC, libc::O_WRONLY | libc::O_EXCL])
+                // never block on a fifo of the tree
+                | if spec.entries.iter().any(|e| e.kind == Kind::Fifo) { libc::O_NONBLOCK } else { 0 },
+            mode: 0o644,
+        },
+    }
+}
+
 pub fn gen_op_in(rng: &mut Rng, spec: &TreeSpec, class: OpClass) -> Op {
+    if class == OpClass::SingleValid {
+        return gen_single_valid(rng, spec);
+    }
     loop {
         let op = gen_op(rng, spec);
         if class.admits(&op) {
